@@ -1,8 +1,50 @@
 import Driver.Util
-open Lean
+import Driver.C15
+import Paroxy.Model.NodeFeature
+import Paroxy.Spec.NodeFeature
+open Lean Paroxy.Flat
 
 namespace Driver.C01
 
-def handlers : List (String × Handler) := []
+def strJ (s : Str) : Json := Json.str (String.ofList s)
+
+def matchJson (m : Str × List Str) : Json :=
+  Json.mkObj [("suffix", strJ m.1), ("pos", Json.arr (m.2.map strJ).toArray)]
+
+/-- `c01.matches`: the hand matcher of the `node` pattern on arbitrary lines (one attempt per line). -/
+def matchesH : Handler := fun j => do
+  let ls ← C15.getLines j
+  pure (Json.mkObj [("matches", Json.arr ((nodeMatches ls).map matchJson).toArray)])
+
+def bindingJson (b : Str × SpanP) : Json :=
+  Json.arr #[strJ b.1, Json.num (b.2.start : Nat), Json.num (b.2.stop : Nat), strJ b.2.path]
+
+/-- `c01.bindings`: matcher + `get_bindings` + `pos_to_span`; `{"exc": "ValueError"}` when a captured
+position does not have the form `<int>:<path>`. -/
+def bindings : Handler := fun j => do
+  let ls ← C15.getLines j
+  match nodeBindings? ls with
+  | some bs => pure (Json.mkObj [("bindings", Json.arr (bs.map bindingJson).toArray)])
+  | none => pure (Json.mkObj [("exc", "ValueError")])
+
+/-- `c01.model`: the whole model pipeline on a tree: flatten (code as written) then `node` bindings. -/
+def model : Handler := fun j => do
+  let t ← C15.getTree j
+  let ls := (flattenAst implCfg HashState.reset t).1
+  match nodeBindings? ls with
+  | some bs => pure (Json.mkObj [("bindings", Json.arr (bs.map bindingJson).toArray)])
+  | none => pure (Json.mkObj [("exc", "ValueError")])
+
+/-- `c01.spec`: what the property says — one `(type, line)` per node of the tweaked tree that carries
+a line number, in pre-order; and the list of positioned type names. -/
+def spec : Handler := fun j => do
+  let t ← C15.getTree j
+  let t' := tweak [] (onTheFly specCfg t)
+  let ps := positionedNodes t'
+  pure (Json.mkObj [("nodes", Json.arr (ps.map fun p => Json.arr #[strJ p.1, Json.num (p.2 : Nat)]).toArray),
+    ("wf", Json.bool (treeOk t'))])
+
+def handlers : List (String × Handler) :=
+  [("c01.matches", matchesH), ("c01.bindings", bindings), ("c01.model", model), ("c01.spec", spec)]
 
 end Driver.C01
